@@ -166,13 +166,14 @@ Proof.
 Qed.
 
 Lemma dump_all_loop_ok dbs : forall c c' r, cache_ok c -> dump_all_loop E fs c dbs = (c', r) ->
-  cache_ok c' /\ r = flat_map (fun db => if has_prefix (db_name db) s_template then [] else
-                                         match p_dump_database E fs (db_oid db) with Some d => [d] | None => [] end) dbs.
+  cache_ok c' /\ r = flat_map (p_dump_all_db E fs) dbs.
 Proof.
   induction dbs as [|db rest IH]; intros c c' r K H; cbn [dump_all_loop] in H.
   - inversion H; subst. auto.
-  - cbn [flat_map]. destruct (has_prefix (db_name db) s_template); [eapply IH; eauto|].
-    destruct (DumpDatabase E fs c (db_oid db)) as [c1 od] eqn:H1. apply DumpDatabase_ok in H1 as [K1 ->]; auto.
+  - cbn [flat_map]. unfold p_dump_all_db at 1. destruct (has_prefix (db_name db) s_template); [eapply IH; eauto|].
+    destruct (Tables E fs c (db_oid db)) as [c0 ts] eqn:H0. apply Tables_ok in H0 as [K0 ->]; auto.
+    destruct ((Z.of_nat (length (p_tables E fs (db_oid db))) =? 0) && negb (hasClassFile fs (db_oid db))); [eapply IH; eauto|].
+    destruct (DumpDatabase E fs c0 (db_oid db)) as [c1 od] eqn:H1. apply DumpDatabase_ok in H1 as [K1 ->]; auto.
     destruct (dump_all_loop E fs c1 rest) as [c2 r2] eqn:H2. apply IH in H2 as [K2 ->]; auto.
     destruct (p_dump_database E fs (db_oid db)); inversion H; subst; auto.
 Qed.
